@@ -60,13 +60,13 @@ func c11ImportEdges(w *World, r *Report) {
 						continue
 					}
 					cc := c.Common()
-					if !cc.IsInvoke() || cc.Method.Name() != "AddChildren" {
+					if !cc.IsInvoke() || nm(cc.Method) != "AddChildren" {
 						continue
 					}
 					nAdd++
 					what := fmt.Sprintf("%s: AddChildren #%d (in %s)", name, nAdd, f.Name())
 					src, isCall := cc.Args[0].(*ssa.Call)
-					if !isCall || !src.Call.IsInvoke() || src.Call.Method.Name() != "ChildrenByType" {
+					if !isCall || !src.Call.IsInvoke() || nm(src.Call.Method) != "ChildrenByType" {
 						r.Fail("R11.7", what, in.Pos(), "the statements merged from an included submodule are not the unfiltered result of ChildrenByType: a selection (e.g. by prefix) drops import statements, and with them edges of the import graph the cycle check and the module ordering rely on")
 						continue
 					}
